@@ -51,17 +51,20 @@ import (
 // that RunJobs submits in order and stops at the first refusal (see Spec/C14.lean).
 
 type c14Input struct {
-	Workers int     `json:"workers"`
-	Jobs    []int   `json:"jobs"`            // jobs per RunJobs caller (len = number of callers)
-	K       int     `json:"k"`               // scheduler yields of the stopper before it acts
-	Mode    string  `json:"mode"`            // none | stop | cancel | both | stop-before | cancel-before | stop-after | cancel-after
-	JobKind string  `json:"jobKind"`         // plain | yield | block | mixed | hold (non-panicking jobs)
-	PanicAt [][]int `json:"panicAt"`         // per caller: indices of the jobs whose job function panics
-	Stagger []int   `json:"stagger"`         // yields of caller i before it calls RunJobs
-	Salt    uint64  `json:"salt"`            // per-job choices for mixed/yield kinds
-	Via     string  `json:"via,omitempty"`   // "" = util.NewWorkerGroup directly | runner-v3 | runner-v2: the group as the runner's constructor builds it (Jobs = batches per CheckUpkeeps caller)
-	Queue   int     `json:"queue,omitempty"` // runner: WorkerQueueLength (!= Workers)
-	Trace   bool    `json:"trace,omitempty"` // record the verif hook events of the run (needs the hooks in /repo: c14_trace_test.go)
+	Workers   int     `json:"workers"`
+	Jobs      []int   `json:"jobs"`                // jobs per RunJobs caller (len = number of callers)
+	K         int     `json:"k"`                   // scheduler yields of the stopper before it acts
+	Mode      string  `json:"mode"`                // none | stop | cancel | both | stop-before | cancel-before | stop-after | cancel-after
+	JobKind   string  `json:"jobKind"`             // plain | yield | block | mixed | hold (non-panicking jobs)
+	PanicAt   [][]int `json:"panicAt"`             // per caller: indices of the jobs whose job function panics
+	Stagger   []int   `json:"stagger"`             // yields of caller i before it calls RunJobs
+	Salt      uint64  `json:"salt"`                // per-job choices for mixed/yield kinds
+	StartAtMs []int   `json:"startAtMs,omitempty"` // timed history: caller i calls RunJobs at this virtual time (submission waves with quiet periods in between)
+	LongMs    int     `json:"longMs,omitempty"`    // timed history: base duration (virtual ms) of a long job (jobKind long / long-mixed)
+	StopAtMs  int     `json:"stopAtMs,omitempty"`  // timed history: Stop / cancel is injected at this virtual time (instead of after k yields)
+	Via       string  `json:"via,omitempty"`       // "" = util.NewWorkerGroup directly | runner-v3 | runner-v2: the group as the runner's constructor builds it (Jobs = batches per CheckUpkeeps caller)
+	Queue     int     `json:"queue,omitempty"`     // runner: WorkerQueueLength (!= Workers)
+	Trace     bool    `json:"trace,omitempty"`     // record the verif hook events of the run (needs the hooks in /repo: c14_trace_test.go)
 }
 
 type c14Caller struct {
@@ -159,6 +162,27 @@ func c14Blocking(in c14Input, caller, job int) (yields int, block bool, hold boo
 	return 0, false, false
 }
 
+// c14LongMs: virtual duration of a long job (0: not a long job).  A long job sleeps (or ends with
+// its ctx): it holds its worker while virtual time passes and nothing may be submitted.
+func c14LongMs(in c14Input, caller, job int) int {
+	if in.LongMs <= 0 {
+		return 0
+	}
+	h := in.Salt*31 + uint64(caller)*0x9E3779B97F4A7C15 + uint64(job)*0xBF58476D1CE4E5B9
+	h ^= h >> 31
+	switch in.JobKind {
+	case "long":
+		return in.LongMs + int(h%1500)
+	case "long-mixed":
+		if h%3 != 0 {
+			return in.LongMs + int(h%1500)
+		}
+	}
+	return 0
+}
+
+func (in c14Input) timed() bool { return len(in.StartAtMs) > 0 || in.LongMs > 0 || in.StopAtMs > 0 }
+
 func c14Panics(in c14Input, caller, job int) bool {
 	if caller >= len(in.PanicAt) {
 		return false
@@ -172,6 +196,9 @@ func c14Panics(in c14Input, caller, job int) bool {
 }
 
 const c14PanicTag = "c14job:"
+
+// virtual time after which a timed history must be over (waves start within 10 s, jobs take < 8 s)
+const c14TimeLimit = 10 * time.Minute
 
 func c14WillRelease(mode string) bool {
 	switch mode {
@@ -320,6 +347,9 @@ func c14Run(t *testing.T, in c14Input, verdict func(c14Impl)) (impl c14Impl) {
 				stagger = in.Stagger[i]
 			}
 			go func() {
+				if i < len(in.StartAtMs) && in.StartAtMs[i] > 0 {
+					time.Sleep(time.Duration(in.StartAtMs[i])*time.Millisecond + 137*time.Microsecond)
+				}
 				for y := 0; y < stagger; y++ {
 					runtime.Gosched()
 				}
@@ -346,6 +376,15 @@ func c14Run(t *testing.T, in c14Input, verdict func(c14Impl)) (impl c14Impl) {
 							c.panicked = append(c.panicked, j-1)
 							c.mu.Unlock()
 							panic(fmt.Sprintf("%s%d", c14PanicTag, j-1))
+						}
+						if d := c14LongMs(in, i, j-1); d > 0 {
+							tm := time.NewTimer(time.Duration(d) * time.Millisecond)
+							select {
+							case <-tm.C:
+							case <-ctx.Done():
+								tm.Stop()
+								return j, ctx.Err()
+							}
 						}
 						if block {
 							<-ctx.Done()
@@ -395,25 +434,47 @@ func c14Run(t *testing.T, in c14Input, verdict func(c14Impl)) (impl c14Impl) {
 				c.returned.Store(true)
 			}()
 		}
+		var stopperDone atomic.Bool
+		stopperDone.Store(true)
 		if in.Mode == "stop" || in.Mode == "cancel" || in.Mode == "both" {
+			stopperDone.Store(false)
 			go func() {
+				defer stopperDone.Store(true)
+				if in.StopAtMs > 0 {
+					time.Sleep(time.Duration(in.StopAtMs)*time.Millisecond + 61*time.Microsecond)
+				}
 				for y := 0; y < in.K; y++ {
 					runtime.Gosched()
 				}
 				inject(in.Mode)
 			}()
 		}
+		t0 := time.Now()
+		allReturned := func() bool {
+			for _, c := range cs {
+				if !c.returned.Load() {
+					return false
+				}
+			}
+			return true
+		}
 		for {
 			synctest.Wait()
 			// everything is durably blocked; jobs that are holding occupy their workers: release them
 			// (the next wave saturates the workers again) until no job is holding any more
 			hs := takeHolders()
-			if len(hs) == 0 {
+			if len(hs) > 0 {
+				for _, h := range hs {
+					close(h)
+				}
+				continue
+			}
+			// timed history: let virtual time pass (long jobs, later submission waves) until every
+			// caller has returned; bounded: whoever has not returned after c14TimeLimit is stuck
+			if !in.timed() || (allReturned() && stopperDone.Load()) || time.Since(t0) > c14TimeLimit {
 				break
 			}
-			for _, h := range hs {
-				close(h)
-			}
+			time.Sleep(97 * time.Millisecond)
 		}
 		// every goroutine of the bubble is durably blocked: the verdict is exact
 		impl = snapshot("verdict")
@@ -470,12 +531,22 @@ func c14Edge() []c14Input {
 		{Workers: 3, Jobs: []int{10, 10}, K: 30, Mode: "stop", JobKind: "hold", PanicAt: [][]int{{1}, {1, 2}}},
 		{Workers: 5, Jobs: []int{20}, K: 15, Mode: "cancel", JobKind: "mixed", PanicAt: [][]int{{0, 6}}, Salt: 11},
 		{Workers: 2, Jobs: []int{5}, Mode: "stop-after", JobKind: "yield", PanicAt: [][]int{{4}}, Salt: 2},
+		// virtual time: a wave of long jobs, a quiet period of 2 s, then more work than workers
+		{Workers: 2, Jobs: []int{2, 4}, StartAtMs: []int{0, 2000}, LongMs: 5000, Mode: "none", JobKind: "long"},
+		{Workers: 3, Jobs: []int{2, 5, 4}, StartAtMs: []int{0, 1500, 4200}, LongMs: 3000, Mode: "none", JobKind: "long", Salt: 3},
+		{Workers: 1, Jobs: []int{1, 2}, StartAtMs: []int{0, 3100}, LongMs: 6000, Mode: "stop", StopAtMs: 4000, JobKind: "long"},
+		{Workers: 4, Jobs: []int{4, 6}, StartAtMs: []int{0, 1100}, LongMs: 2000, Mode: "cancel", StopAtMs: 1500, JobKind: "long-mixed", Salt: 8},
 		// through the runners' constructors: Workers != WorkerQueueLength, more batches than workers
 		{Via: "runner-v3", Workers: 3, Queue: 1000, Jobs: []int{36}, Mode: "none", JobKind: "hold"},
 		{Via: "runner-v3", Workers: 2, Queue: 100, Jobs: []int{5, 5, 5}, Mode: "none", JobKind: "hold", Salt: 4},
 		{Via: "runner-v3", Workers: 8, Queue: 3, Jobs: []int{20}, Mode: "stop-after", JobKind: "hold"},
 		{Via: "runner-v2", Workers: 3, Queue: 1000, Jobs: []int{12}, Mode: "none", JobKind: "hold"},
 		{Via: "runner-v2", Workers: 1, Queue: 7, Jobs: []int{4, 0, 3}, Mode: "cancel-after", JobKind: "yield", Salt: 9},
+		// Close() while pipeline calls that only come back with their context are in flight
+		{Via: "runner-v3", Workers: 2, Queue: 100, Jobs: []int{5}, K: 60, Mode: "stop", JobKind: "block"},
+		{Via: "runner-v3", Workers: 3, Queue: 10, Jobs: []int{2}, K: 200, Mode: "stop", JobKind: "block"},
+		{Via: "runner-v2", Workers: 2, Queue: 100, Jobs: []int{5}, K: 60, Mode: "stop", JobKind: "block"},
+		{Via: "runner-v3", Workers: 2, Queue: 100, Jobs: []int{4, 3}, K: 40, Mode: "cancel", JobKind: "block"},
 	}
 }
 
@@ -589,6 +660,48 @@ func c14Gen(r *Rng, i int) c14Input {
 	return in
 }
 
+// c14GenTimed: a history in virtual time: submission waves (callers start at different times) separated
+// by quiet periods of 1-5 s in which nothing is submitted while long jobs still hold their workers;
+// the later waves bring more simultaneous work than there are workers
+func c14GenTimed(r *Rng) c14Input {
+	var in c14Input
+	in.Workers = []int{1, 2, 2, 3, 3, 4, 5, 8}[r.Intn(8)]
+	in.LongMs = r.Range(1500, 6000)
+	in.JobKind = "long"
+	if r.Chance(30) {
+		in.JobKind = "long-mixed"
+	}
+	waves := r.Range(2, 4)
+	at := 0
+	for w := 0; w < waves; w++ {
+		var j int
+		switch {
+		case w == 0 && r.Chance(70):
+			j = r.Range(1, in.Workers) // the first wave fits on the workers: the loops go idle while it runs
+		case r.Chance(20):
+			j = r.Range(0, 2)
+		default:
+			j = r.Range(in.Workers, 2*in.Workers+3)
+		}
+		in.Jobs = append(in.Jobs, j)
+		in.StartAtMs = append(in.StartAtMs, at)
+		in.Stagger = append(in.Stagger, 0)
+		at += r.Range(1000, 5000) + r.Intn(400) // the quiet period before the next wave
+	}
+	switch m := r.Intn(10); {
+	case m < 7:
+		in.Mode = "none"
+	case m < 8:
+		in.Mode, in.StopAtMs = "stop", r.Range(500, at+2000)
+	case m < 9:
+		in.Mode, in.StopAtMs = "cancel", r.Range(500, at+2000)
+	default:
+		in.Mode = "stop-after"
+	}
+	in.Salt = r.U64() % 1_000_000
+	return in
+}
+
 // c14GenRunner: Workers != WorkerQueueLength, more batches in flight than workers, a check pipeline
 // that mostly holds (released wave by wave), several concurrent CheckUpkeeps callers
 func c14GenRunner(r *Rng) c14Input {
@@ -627,14 +740,50 @@ func c14GenRunner(r *Rng) c14Input {
 		in.Jobs = append(in.Jobs, b)
 		in.Stagger = append(in.Stagger, r.Intn(3)*r.Intn(8))
 	}
-	in.Mode = []string{"none", "none", "none", "stop-after", "cancel-after"}[r.Intn(5)]
-	switch k := r.Intn(100); {
-	case k < 65:
-		in.JobKind = "hold"
-	case k < 85:
-		in.JobKind = "yield"
+	switch m := r.Intn(100); {
+	case m < 40:
+		in.Mode = "none"
+	case m < 65:
+		in.Mode = "stop" // Close() while the call has pipeline calls in flight
+	case m < 75:
+		in.Mode = "cancel"
+	case m < 80:
+		in.Mode = "both"
+	case m < 90:
+		in.Mode = "stop-after"
 	default:
-		in.JobKind = "plain"
+		in.Mode = "cancel-after"
+	}
+	if in.Mode == "stop" || in.Mode == "both" {
+		// error results of calls the workers skipped carry no identity: one caller, so that they can be counted for it
+		in.Jobs, in.Stagger = in.Jobs[:1], in.Stagger[:1]
+	}
+	if c14WillRelease(in.Mode) {
+		in.K = r.Range(0, 300)
+	}
+	if c14WillRelease(in.Mode) {
+		// calls in flight when Close()/cancel comes: mostly pipelines that obey the context they were given
+		switch k := r.Intn(100); {
+		case k < 40:
+			in.JobKind = "block" // comes back only when its context ends
+		case k < 55:
+			in.JobKind = "mixed"
+		case k < 80:
+			in.JobKind = "hold"
+		case k < 95:
+			in.JobKind = "yield"
+		default:
+			in.JobKind = "plain"
+		}
+	} else {
+		switch k := r.Intn(100); {
+		case k < 65:
+			in.JobKind = "hold"
+		case k < 85:
+			in.JobKind = "yield"
+		default:
+			in.JobKind = "plain"
+		}
 	}
 	in.Salt = r.U64() % 1_000_000
 	return in
@@ -698,6 +847,11 @@ func c14Cases(t *testing.T) (cases []c14Case, dist map[string]int) {
 		in := c14Gen(r, i)
 		cases = append(cases, c14Case{"gen", in})
 	}
+	// histories in virtual time: submission waves with quiet periods while long jobs run
+	r4 := NewRng(seed() + 0x71ed)
+	for i, nt := 0, tierN(150, 2500); i < nt; i++ {
+		cases = append(cases, c14Case{"gen-timed", c14GenTimed(r4)})
+	}
 	// the worker group as the runners' public constructors build it (own random stream)
 	r3 := NewRng(seed() + 0x4a11)
 	for i, nr := 0, tierN(200, 3000); i < nr; i++ {
@@ -709,6 +863,13 @@ func c14Cases(t *testing.T) (cases []c14Case, dist map[string]int) {
 		r2 := NewRng(seed() + 0x7ace)
 		nt := tierN(500, 6000)
 		for i := 0; i < nt; i++ {
+			if i%6 == 5 {
+				// a timed history (quiet periods while long jobs hold workers), traced
+				in := c14GenTimed(r2)
+				in.Trace = true
+				cases = append(cases, c14Case{"gen-trace-timed", in})
+				continue
+			}
 			cases = append(cases, c14Case{"gen-trace", c14GenTrace(r2, i)})
 		}
 	}
@@ -720,6 +881,9 @@ func c14Cases(t *testing.T) (cases []c14Case, dist map[string]int) {
 		}
 		if in.Trace {
 			dist["trace=yes"]++
+		}
+		if in.timed() {
+			dist["timed=yes"]++
 		}
 		if in.Via != "" {
 			dist["via="+in.Via]++
